@@ -549,10 +549,14 @@ def pseudo_inverse(L, rhoss=None, w=None, method='splu', *, use_rcm=False,
     I = _data.identity_like(P)
     Q = _data.sub(I, P)
 
-    if w in [None, 0.0]:
-        L += 1e-15j
-    else:
+    pinv_methods = ["pinv", "numpy", "scipy", "scipy2"]
+    if w not in [None, 0.0]:
         L += 1.0j * w
+    elif method not in pinv_methods:
+        # Make the singular Liouvillian invertible for the linear solvers.
+        # Not for the Moore-Penrose inverse: it handles the null space itself
+        # and the shift would put a singular value at its cutoff.
+        L += 1e-15j
 
     use_rcm = use_rcm and isinstance(L.data, _data.CSR)
 
@@ -563,7 +567,7 @@ def pseudo_inverse(L, rhoss=None, w=None, method='splu', *, use_rcm=False,
     else:
         A = L.data
 
-    if method in ["pinv", "numpy", "scipy", "scipy2"]:
+    if method in pinv_methods:
         # from scipy 1.7.0, they all use the same algorithm.
         LI = _data.Dense(scipy.linalg.pinv(A.to_array()), copy=False)
         LIQ = _data.matmul(LI, Q)
